@@ -88,4 +88,34 @@ def final : St → List Ev → St
   | s, [] => s
   | s, e :: r => final (step s e).st r
 
+
+/-! ### histories that also contain the public `request()` helper
+
+`PhysicalDevice.request(name, kind, retries, timeout)` puts one request frame of `kind` on the
+queue per attempt and waits for `name`; when it gives up it raises — and changes neither the
+recorded versions nor the set of unsupported kinds (only set-up's `frame_errors` does). -/
+
+inductive Ev2 where
+  | ev (e : Ev)
+  | request (k attempts : Nat)     -- a `request()` for kind k that is never answered
+  deriving Repr
+
+def step2 (s : St) : Ev2 → Res
+  | .ev e => step s e
+  | .request k n => ⟨s, List.replicate n k, false⟩
+
+def run2 : St → List Ev2 → List Res
+  | _, [] => []
+  | s, e :: r => step2 s e :: run2 (step2 s e).st r
+
+def final2 : St → List Ev2 → St
+  | s, [] => s
+  | s, e :: r => final2 (step2 s e).st r
+
+/-- the history with the `request()` calls left out -/
+def strip : List Ev2 → List Ev
+  | [] => []
+  | .ev e :: r => e :: strip r
+  | .request _ _ :: r => strip r
+
 end PlumVerif.C15
